@@ -41,7 +41,72 @@ def plan(tier):
         return {"cases": 4000, "timeout": 400, "wall_budget": 1500, "recheck": 6, "nproc": 8}
     return {"cases": 90, "timeout": 300, "wall_budget": 60, "recheck": 3, "nproc": 8}
 
+def _memo_shape(rng):
+    """Projects built around the in-memory memo: leaves that consume a variable, chains of
+    intermediate recipes above them that do not read it themselves, and wrappers that reach
+    leaves and intermediates in a seeded order under few distinct values of that variable --
+    so that a package is served from the memo while an enclosing recipe is being calculated
+    and the enclosing recipe is reached again under another value."""
+    recipes = {}
+    order = ["root"]
+    x, y = rng.sample(projgen.VARPOOL, 2)
+    leaves = []
+    for i in range(rng.choice([1, 1, 2])):
+        n = "l%d" % i
+        r = projgen._leaf(rng)
+        r[rng.choice(["buildVars", "packageVars"])] = [x] if rng.random() < 0.7 else [x, y]
+        recipes[n] = r
+        leaves.append(n)
+    targets = list(leaves)
+    mids = []
+    for i in range(rng.choice([1, 2, 3])):
+        n = "m%d" % i
+        r = projgen._leaf(rng)
+        below = rng.choice(targets)
+        r["depends"] = [{"name": below, "use": ["result", "deps"]}]
+        if rng.random() < 0.25:
+            r["depends"].append({"name": rng.choice(leaves), "use": ["result", "deps"]})
+            if r["depends"][1]["name"] == below:
+                r["depends"].pop()
+        if rng.random() < 0.2:
+            r["buildVars"] = [y]
+        recipes[n] = r
+        mids.append(n)
+        targets.append(n)
+    wrappers = []
+    for i in range(rng.choice([4, 5, 6, 7])):
+        n = "p%d" % i
+        r = projgen._leaf(rng)
+        env = {x: rng.choice(["1", "2"])}
+        if rng.random() < 0.3:
+            env[y] = rng.choice(["1", "2"])
+        # the first wrapper usually reaches a leaf directly: it is in the memo before any chain is
+        tgt = rng.choice(leaves) if (i == 0 and rng.random() < 0.7) else rng.choice(targets)
+        r["depends"] = [{"name": tgt, "use": ["result", "deps"], "environment": env}]
+        recipes[n] = r
+        wrappers.append(n)
+    root = projgen._leaf(rng)
+    root["depends"] = [{"name": n, "use": ["result", "deps"]} for n in wrappers]
+    recipes["root"] = root
+    order += wrappers + list(reversed(mids)) + leaves
+    return {"recipes": recipes, "classes": {}, "default_env": {}, "sources": {}, "order": order,
+            "features": ["memo-shape"]}
+
 def gen_case(rng, tier, index):
+    if index % 3 == 2:
+        model = _memo_shape(rng)
+        steps = [{"defines": {}}]
+        hist = [model]
+        cur = model
+        for _ in range(rng.choice([0, 1, 2])):
+            st = {"defines": {}}
+            e = projgen.gen_edit(rng, cur, hist, ["dep_env", "dep_reorder", "var_list", "dep_add", "salt"])
+            if e is not None:
+                st["edit"] = e
+                cur = projgen.apply_edit(cur, e, hist)
+                hist.append(cur)
+            steps.append(st)
+        return {"model": model, "steps": steps}
     feats = {"vars", "depenv", "diamond"} | set(rng.sample(["tools", "provideVars", "classes", "forward", "provideDeps", "ifdeps",
                                                             "substenv", "checkoutscript", "import", "weak", "nobuild",
                                                             "inhtools", "inhtools"], rng.randint(2, 7)))
